@@ -640,6 +640,14 @@ def r01_3(ctx):
                     strict_ok = True
                     cmp_l = (s["lhs"][0], rv["op"], "index" in sides[0], b)
         if cmp_l is None:
+            # delegation: the bytes come from a sibling accessor of the same impl that is itself checked here (next_n built
+            # on peek_n); nothing is read besides what it returned
+            sib = [(b, t) for b, t in fn.calls() if t["callee"] in prog.fns and prog.fns[t["callee"]].trait == fn.trait and prog.fns[t["callee"]].self_adt == fn.self_adt
+                   and prog.fns[t["callee"]].name in ("peek", "peek_n", "next_n") and prog.fns[t["callee"]].name != m]
+            rawd = [(b, t) for b, t in fn.calls() if callee_is(t, "get_unchecked", "from_raw_parts", "index", "add", "offset")]
+            if sib and not rawd:
+                ctx.ob("R01.3", f"Read::{m}", True, fn.loc(), f"the bytes are those returned by the checked sibling accessor {prog.fns[sib[0][1]['callee']].name}")
+                continue
             # the checked accessor form: slice.get(index) / get(range), which returns None out of range by itself, with no
             # unchecked read besides it
             gets = [(b, t) for b, t in fn.calls() if callee_is(t, "get") and "slice" in t["callee"]]
